@@ -176,8 +176,10 @@ def probes_for(E, K, h):
     near = numpy.repeat(numpy.arange(m), W.shape[1])
     v = W.ravel()
     mids = E + 0.5 * h
-    extra = numpy.concatenate([mids, [E[0] - h, E[0] - 10 * h, E[0] - 1e6, E[-1] + h, E[-1] + 2 * h, E[-1] + 10 * h, E[-1] + 1e6]])
-    nx = numpy.concatenate([numpy.arange(m), [0, 0, 0, m - 1, m - 1, m - 1, m - 1]])
+    far_lo = [E[0] - h, E[0] - 10 * h, E[0] - 1e6, -1e15, -1e18, -1e19, -1e300, -numpy.inf]
+    far_hi = [E[-1] + h, E[-1] + 2 * h, E[-1] + 10 * h, E[-1] + 1e6, 1e15, 1e18, 1e19, 1e300, numpy.inf]
+    extra = numpy.concatenate([mids, far_lo, far_hi])
+    nx = numpy.concatenate([numpy.arange(m), [0] * len(far_lo), [m - 1] * len(far_hi)])
     return numpy.concatenate([v, extra]), numpy.concatenate([near, nx])
 
 
@@ -306,6 +308,19 @@ def run_case(case):
                         continue
                     evals += 1
                     hsh.update(E.tobytes())
+                    # history: the caller modifies the returned array in place, then asks for the same grid again
+                    try:
+                        E_first = E.copy()
+                        E += 0.5 * step
+                        E_again = build_edges(desc)
+                        if E_again.shape != E_first.shape or not numpy.array_equal(E_again, E_first):
+                            failures.append(Fail(f'csep.utils.calc.cleaner_range|second-call-returns-modified-edges|{how}',
+                                                 f'{desc}: after the first result was shifted in place by the caller, a second call returned {E_again[:3].tolist()}.. instead of {E_first[:3].tolist()}..',
+                                                 dict(kind='gen', **desc)))
+                        E[:] = E_first       # restore the very object (it may be shared by a cache in the library)
+                        E = E_first
+                    except Exception as e:
+                        failures.append(Fail(f'csep.utils.calc.cleaner_range|{type(e).__name__}|second-call', f'{type(e).__name__}: {e} {desc}', dict(kind='gen', **desc)))
                     if len(E) != n + 1:
                         failures.append(Fail(f'csep.utils.calc.cleaner_range|wrong-length|{how}',
                                              f'{desc}: {len(E)} edges, expected {n + 1}', dict(kind='gen', **desc)))
@@ -370,6 +385,13 @@ def run_case(case):
         ref = build_edges(dict(desc, how='decimal'))
         try:
             E = build_edges(desc)
+            E0 = E.copy()
+            E += 0.5 * case['step']
+            E2 = build_edges(desc)
+            if E2.shape != E0.shape or not numpy.array_equal(E2, E0):
+                failures.append(Fail(f'csep.utils.calc.cleaner_range|second-call-returns-modified-edges|{case["how"]}', f'{desc}', case))
+            E[:] = E0
+            E = E0
             if len(E) != case['n'] + 1:
                 failures.append(Fail(f'csep.utils.calc.cleaner_range|wrong-length|{case["how"]}', f'{desc}', case))
             elif not numpy.array_equal(E, ref):
